@@ -229,8 +229,13 @@ def expand(fn, expr, depth=6, stop_names=()):
 def _attr_rebound_between(fn, dstmt, use_stmt, val):
     """`t = <val reading obj.attr>` ... use of t: is obj.attr re-bound on some path from the definition to the use (a direct store, or a method of
     the same class that stores it)?  Then the local is a STALE copy and must not be read as its defining expression."""
+    if use_stmt is None or dstmt is use_stmt:
+        return False
+    # a LOCAL the value reads must still have, at the use, the definitions it had where the copy was made: otherwise the copy is stale
+    if stale_names(fn, dstmt, use_stmt, val):
+        return True
     reads = {(n.value.id, n.attr) for n in ast.walk(val) if isinstance(n, ast.Attribute) and isinstance(n.value, ast.Name)}
-    if not reads or use_stmt is None or dstmt is use_stmt:
+    if not reads:
         return False
     key = (id(dstmt), id(use_stmt), tuple(sorted(reads)))
     cache = fn.__dict__.setdefault("_rebound_cache", {})
@@ -271,6 +276,29 @@ def _attr_rebound_between(fn, dstmt, use_stmt, val):
                         res = True
     cache[key] = res
     return res
+
+
+def stale_names(fn, dstmt, use_stmt, val):
+    """Locals read by val whose reaching definitions at use_stmt differ from those at dstmt (re-assigned in between on some path)."""
+    out = []
+    bound = set()
+    for n in ast.walk(val):
+        if isinstance(n, ast.comprehension):
+            tmp = []
+            _target_names(n.target, tmp)
+            bound |= set(tmp)
+        elif isinstance(n, ast.Lambda):
+            bound |= {a.arg for a in n.args.args}
+    for n in ast.walk(val):
+        if isinstance(n, ast.Name) and isinstance(n.ctx, ast.Load) and n.id not in bound:
+            try:
+                d1 = fn.rd.defs_at(dstmt, n.id)
+                d2 = fn.rd.defs_at(use_stmt, n.id)
+            except Exception:
+                continue
+            if d1 and d2 and set(d1) != set(d2) and n.id not in out:
+                out.append(n.id)
+    return out
 
 
 def _method_stores_attr(callee, attrs, depth=2):
